@@ -579,3 +579,181 @@ func zzHex(b []byte) string {
 	}
 	return string(out)
 }
+
+// zzSymLeavesFree is zzSymLeaves without the "set elements are distinct" assumption.
+type zzSymLeavesFree struct{ zzSymLeaves }
+
+func (zzSymLeavesFree) Assume(c bool) {}
+
+func zzIsContainer(t *zzType) bool { return t.K == zzList || t.K == zzSet || t.K == zzMap }
+
+// zzSameValue is the equality of the DeepEqual statement: structural, an absent optional
+// scalar/struct differs from every present one, nil and empty containers are the same value,
+// doubles compare by value (NaN excluded by the caller).
+func zzSameValue(t *zzType, a, b *zzVal) bool {
+	switch t.K {
+	case zzDouble:
+		return zzFromBits(a.F) == zzFromBits(b.F)
+	case zzList, zzSet:
+		if len(a.L) != len(b.L) {
+			return false
+		}
+		for i := range a.L {
+			if !zzSameValue(t.Elem, a.L[i], b.L[i]) {
+				return false
+			}
+		}
+		return true
+	case zzMap:
+		if len(a.L) != len(b.L) {
+			return false
+		}
+		for i := range a.K {
+			found := false
+			for j := range b.K {
+				if zzSameValue(t.Key, a.K[i], b.K[j]) {
+					if !zzSameValue(t.Elem, a.L[i], b.L[j]) {
+						return false
+					}
+					found = true
+					break
+				}
+			}
+			if !found {
+				return false
+			}
+		}
+		return true
+	case zzStructK:
+		empty := &zzVal{}
+		for _, f := range t.St.Fields {
+			x, y := a.field(f.ID), b.field(f.ID)
+			if zzIsContainer(f.T) || f.T.K == zzBinary {
+				if x == nil {
+					x = empty
+				}
+				if y == nil {
+					y = empty
+				}
+			}
+			if (x == nil) != (y == nil) {
+				return false
+			}
+			if x != nil && !zzSameValue(f.T, x, y) {
+				return false
+			}
+		}
+		return true
+	}
+	return zzLeafEq(t, a, b)
+}
+
+// zzHasNaN reports whether a value contains a NaN double.
+func zzHasNaN(t *zzType, v *zzVal) bool {
+	switch t.K {
+	case zzDouble:
+		f := zzFromBits(v.F)
+		return f != f
+	case zzList, zzSet:
+		for _, e := range v.L {
+			if zzHasNaN(t.Elem, e) {
+				return true
+			}
+		}
+	case zzMap:
+		for i := range v.L {
+			if zzHasNaN(t.Key, v.K[i]) || zzHasNaN(t.Elem, v.L[i]) {
+				return true
+			}
+		}
+	case zzStructK:
+		for _, f := range t.St.Fields {
+			if x := v.field(f.ID); x != nil && zzHasNaN(f.T, x) {
+				return true
+			}
+		}
+	}
+	return false
+}
+
+// zzSetDup reports whether some set-typed field of the struct value (at top level) holds two equal elements.
+func zzSetDup(t *zzType, v *zzVal) bool {
+	for _, f := range t.St.Fields {
+		if f.T.K != zzSet {
+			continue
+		}
+		x := v.field(f.ID)
+		if x == nil {
+			continue
+		}
+		for i := range x.L {
+			for j := 0; j < i; j++ {
+				if zzSameValue(f.T.Elem, x.L[i], x.L[j]) {
+					return true
+				}
+			}
+		}
+	}
+	return false
+}
+
+func zzHasSet(t *zzType) bool {
+	for _, f := range t.St.Fields {
+		if f.T.K == zzSet {
+			return true
+		}
+	}
+	return false
+}
+
+// zzRecLeaves records the presence decisions (Bool("set"), Choose("arm")) of a build.
+type zzRecLeaves struct {
+	zzSymLeaves
+	bools   []bool
+	chooses []int
+}
+
+func (r *zzRecLeaves) Bool(n string) bool {
+	b := zzrt.Bool(n)
+	if n == "set" {
+		r.bools = append(r.bools, b)
+	}
+	return b
+}
+
+func (r *zzRecLeaves) Choose(n string, k int) int {
+	c := zzrt.Choose(n, k)
+	r.chooses = append(r.chooses, c)
+	return c
+}
+
+// zzMirrorLeaves replays recorded presence decisions except decision number flip, which is
+// drawn afresh; all scalar leaves are fresh symbolic values.
+type zzMirrorLeaves struct {
+	zzSymLeaves
+	rec  *zzRecLeaves
+	flip int
+	nb   int
+	nc   int
+}
+
+func (m *zzMirrorLeaves) Bool(n string) bool {
+	if n != "set" {
+		return zzrt.Bool(n)
+	}
+	i := m.nb
+	m.nb++
+	if i == m.flip || i >= len(m.rec.bools) {
+		return zzrt.Bool(n)
+	}
+	return m.rec.bools[i]
+}
+
+func (m *zzMirrorLeaves) Choose(n string, k int) int {
+	i := m.nc
+	m.nc++
+	if i >= len(m.rec.chooses) || len(m.rec.bools)+i == m.flip {
+		return zzrt.Choose(n, k)
+	}
+	return m.rec.chooses[i]
+}
